@@ -15,7 +15,7 @@ import (
 // slowMarker: a per-call function that takes its time (a look-up, a remote check) before it answers
 const slowMarker = "SLOW"
 
-var slowDur = 400 * time.Millisecond
+var slowDur = 1500 * time.Millisecond
 
 func markerFn(marker string) valid.CommonValidFn {
 	return func(errBuf *strings.Builder, validName, objName, fieldName string, tv reflect.Value) {
